@@ -3,7 +3,7 @@
 use happylock::ThreadKey;
 fn main() {
     let real = ThreadKey::get();
-    let key = ThreadKey { phantom: std::marker::PhantomData }; //~ ERROR E0451
+    let key = ThreadKey { @{field:ThreadKey#0}: std::marker::PhantomData }; //~ ERROR E0451
     //~ TWIN: let key = ();
     drop((real, key));
 }
